@@ -270,7 +270,25 @@ CHECKS.update(
     ),
 )
 
-PENDING = {}
+CHECKS.update(
+    C18=dict(
+        category="other",
+        text="The library's own obligations, each on the real code: (a,b) UrwidImageScreen._ti_clear_images / draw_screen run on shard lists "
+        "given as input (previous and next layout: solver-chosen arrangements of kitty, Konsole-iterm2 and text views with trims, widths, "
+        "row spans and shard tails): recorded image views = an independent geometric reference; every kitty view no longer at its previous "
+        "position/extent is deleted by z-index, a vanished Konsole iterm2 view triggers delete-all, unchanged views are not deleted, all "
+        "deletes precede the base class' output; (c) begin/end synchronized-update bracket on every path incl. base-class failure and "
+        "non-composite canvases; clearing on start/stop/clear; (d) z-index allocator: one inductive step from an arbitrary counter (z3 "
+        "integer) and free set.",
+        note="Trusted: urwid's construction of shards for real layouts and its line cache (defeated by the 'disguise' state) - 'placements on "
+        "the terminal = images of the canvas just drawn' is covered only up to these; layouts of <= 2 shards x <= 2 views with geometry "
+        "values 1..3; base-class methods are marker-writing stubs.",
+        design="3 C18",
+        technique=TECH_S + "; selector-forked layouts against a geometric reference, inductive step for the allocator",
+    ),
+)
+
+PENDING = {"C11": "in progress: resource-model harness for image iteration / open-close pairing"}
 
 
 def main():
